@@ -54,3 +54,16 @@ func VerifRestore(b map[*Terminfo]Terminfo) {
 		*p = v
 	}
 }
+
+// VerifForget removes every name that is not in keep (names registered by lookups).
+func VerifForget(keep []string) {
+	k := map[string]bool{}
+	for _, n := range keep {
+		k[n] = true
+	}
+	for n := range terminfos {
+		if !k[n] {
+			delete(terminfos, n)
+		}
+	}
+}
